@@ -492,6 +492,29 @@ example : SortSpec (less false) (insertionSort (less false)) := insertionSort_le
 example : CalcSpec dayCalc := dayCalc_spec
 example : CalcSpec monthCalc := monthCalc_spec
 
+/-- the hypotheses of `partition` / `groups_distinct` / `evict_exact_written` are satisfiable:
+conforming sorts for both batch orders, a jump function below the shard count -/
+theorem lessShard_sort_spec : SortSpec lessShard (insertionSort lessShard) :=
+  insertionSort_spec lessShard
+    (fun a b c h1 h2 => by simp only [lessShard, decide_eq_false_iff_not, Nat.not_lt] at *; omega)
+    (fun a b h => by simp only [lessShard, decide_eq_true_eq, decide_eq_false_iff_not, Nat.not_lt] at *; omega)
+
+theorem lessTs_sort_spec : SortSpec lessTs (insertionSort lessTs) :=
+  insertionSort_spec lessTs
+    (fun a b c h1 h2 => by simp only [lessTs, decide_eq_false_iff_not, Int.not_lt] at *; omega)
+    (fun a b h => by simp only [lessTs, decide_eq_true_eq, decide_eq_false_iff_not, Int.not_lt] at *; omega)
+
+example : ∀ k, (fun k n => k % n) k 7 < 7 := fun k => Nat.mod_lt k (by decide)
+
+/-- a concrete batch: two rows of one series in two hours, one row of another series; 4 shards -/
+example :
+    let rows := appendAll false [] [⟨"r0", "ns", 3600000, [], [], none, 5, 0⟩, ⟨"r1", "ns", 10, [], [], none, 5, 0⟩,
+      ⟨"r2", "ns", 20, [], [], none, 6, 0⟩]
+    (route (fun k n => k % n) dayCalc (insertionSort lessShard) (insertionSort lessTs) 4 rows).map
+      (fun g => (g.shard, g.famTime, g.rows.map (fun r => r.id))) = [(1, 0, [1]), (1, 3600000, [0]), (2, 0, [2])] := by
+  simp [route, runs, familyGroups, appendAll, appendAll.go, assignShards, insertionSort, insertionSort.insertSortedL,
+    lessShard, lessTs, sameShard, inFamilyOf, contains, dayCalc, oneDay, oneHour]
+
 /-! ## proved negations -/
 namespace Neg
 
